@@ -93,6 +93,24 @@ fn call_res(o: &mut ReversibleEnergyStorage, fname: &str, a: &[Value]) -> CallRe
     }
 }
 
+fn call_loco(o: &mut Locomotive, fname: &str, a: &[Value]) -> CallRes {
+    match fname {
+        "Locomotive::set_pwr_aux" => { o.set_pwr_aux(ob(&a[0])); Ok(Ok(Value::Null)) }
+        "Locomotive::set_cur_pwr_max_out" => unit(o.set_cur_pwr_max_out(of(&a[0]).map(|x| x * uc::W), f(&a[1]) * uc::S)),
+        "Locomotive::solve_energy_consumption" => unit(o.solve_energy_consumption(f(&a[0]) * uc::W, f(&a[1]) * uc::S, ob(&a[2]))),
+        _ => Err(Unsup(format!("no runner entry for {fname}"))),
+    }
+}
+
+fn call_consist(o: &mut Consist, fname: &str, a: &[Value]) -> CallRes {
+    match fname {
+        "Consist::set_pwr_aux" => unit(o.set_pwr_aux(ob(&a[0]))),
+        "Consist::set_cur_pwr_max_out" => unit(o.set_cur_pwr_max_out(of(&a[0]).map(|x| x * uc::W), f(&a[1]) * uc::S)),
+        "Consist::solve_energy_consumption" => unit(o.solve_energy_consumption(f(&a[0]) * uc::W, f(&a[1]) * uc::S, ob(&a[2]))),
+        _ => Err(Unsup(format!("no runner entry for {fname}"))),
+    }
+}
+
 fn vf(v: &Value) -> Vec<f64> {
     v.as_array().map(|a| a.iter().map(f).collect()).unwrap_or_default()
 }
@@ -139,6 +157,8 @@ pub fn dispatch(line: &str) -> String {
     let ty = req["recv_ty"].as_str().unwrap_or("").to_string();
     let out = match ty.as_str() {
         "<free>" => run_free(&req),
+        "Locomotive" => run::<Locomotive>(&req, call_loco),
+        "Consist" => run::<Consist>(&req, call_consist),
         "FuelConverter" => run::<FuelConverter>(&req, call_fc),
         "Generator" => run::<Generator>(&req, call_gen),
         "ElectricDrivetrain" => run::<ElectricDrivetrain>(&req, call_edrv),
